@@ -1,3 +1,4 @@
+From Coq Require Import NArith.
 (* Run/RunC02.v — correspondence for C02: the global trace of hook events recorded while the
    real engine ran one or more cascades must be a run of Model/Cascade.v, end in a settled
    state, and the observables obtained through the Go API (AllErrors, finish handler count,
@@ -12,7 +13,7 @@ Record cobs := mkObs {
   o_early : bool                    (* Go side: an action stamp was missing when the wait returned *)
 }.
 
-Record case := mkCase { c_id : nat; c_trace : list label; c_obs : list cobs; c_complete : bool }.
+Record case := mkCase { c_id : N; c_trace : list label; c_obs : list cobs; c_complete : bool }.
 
 (* ---- pure trace functions (Spec side: no model state involved) ---- *)
 (* monitor -> root, built left to right *)
@@ -104,7 +105,7 @@ Definition verdict (c : case) : nat :=
   | n => n
   end.
 
-Definition check_all (cs : list case) : list (nat * nat) :=
+Definition check_all (cs : list case) : list (N * nat) :=
   filter (fun p => negb (Nat.eqb (snd p) 0)) (map (fun c => (c_id c, verdict c)) cs).
 
 Definition invalid_at (c : case) : option nat := first_invalid step init (c_trace c) 0.
